@@ -19,7 +19,7 @@ CLAIMED = {
         "domain of the property (gate_is_domain); one StepScript of the model refines one instruction of the specification for every "
         "opcode of the switch (execOpcode_refines: 114 opcode lemmas incl. signature opcodes, FindAndDelete, BIP66 DER, the compressed "
         "condition stack), whole-script stepping refines the specification's evaluation state by state with the same error at the same "
-        "operation (runOps_refines, C01_trace). The model is tied to the C++ by a three-way differential run (implementation, model, "
+        "operation (runOps_refines, C01_trace; C01_trace_base discharges the checker hypothesis for the transaction-less sessions the check runs). The model is tied to the C++ by a three-way differential run (implementation, model, "
         "spec) after every executed operation: spec-guided deep scripts, every opcode x boundary operands, flag toggles, all scripts of <=2 bytes.",
         "DESIGN.md section 6 (C01)", "Lean 4 refinement proof (model ≈ spec per opcode, induction over the script) + per-step differential correspondence"),
     "C02": claim(
@@ -37,8 +37,10 @@ CLAIMED = {
         "explicit-script sessions under legacy/BIP143 rules and tapscript leaves signed by the independent signer with per-field corruptions under flag subsets.",
         "DESIGN.md section 6 (C02)", "Lean 4 proofs (serializer = BIP digest, checker = validity predicate, congruence of the interpreter in its checker, opcode tables) + four-voice differential correspondence"),
     "C03": claim(
-        "Lean theorems, for every transaction pair, flag set and checker that agrees with the specification's oracle (hypothesis CheckerAgrees = the "
-        "refinement relation CfgRel of C01/C02 for the session's script environments; C05.Agree for the commitment functions): input selection is the "
+        "Lean theorems, for every transaction pair and flag set, first for any checker that agrees with the specification's oracle (CheckerAgrees) and then "
+        "— that hypothesis being false of the real checker as a function equality (C02.no_cfgRel_tx) — for the checker the session really builds "
+        "(C03Tx: C03_verdict_tx for txCheckerWith, C03_verdict_session for Glue.checkerBuilder, via session-level congruence of the interpreter in the "
+        "queries it makes: session_congr, keypath_congr, sameOn_spend; remaining hypothesis: a P2SH redeem script decodes): input selection is the "
         "specification's (C03_select, _refused, _sound: the selected input must reference the funding transaction, else the first that does; the output "
         "must exist); per output type, a refusal by configure_tx_txin / setup_environment happens only for an input VerifyScript rejects, and otherwise "
         "the session run to its end (any fuel >= continueFuel; + 519 for P2SH) finishes without error with exactly the final stack validation requires iff "
